@@ -1318,6 +1318,10 @@ class Compiler:
             key=ast.Constant(node.name),
         )
 
+        # The failure is handled here: what was recorded about it on
+        # its way up must not show up in the message of a later error.
+        error_assignment += template("rcontext.pop('__error__', None)")
+
         body += [ast.Try(
             body=self.visit(node.node),
             handlers=[ast.ExceptHandler(
